@@ -72,6 +72,8 @@ def _forms(draw):
                 # additional pure dephasing in the propagators (time-independent tensors), one initial-state object
                 # handed to both propagations, apply(copy=False) on an operator given as a real array
                 "pd": draw(st.sampled_from([None, None, "Lorentzian", "Gaussian"])),
+                # expansion order asked for by name (None: the default method)
+                "order": draw(st.sampled_from([None, None, 2, 4, 6])),
                 "share_rho": draw(st.booleans()), "apply_real_inplace": draw(st.booleans())})
     return out
 
@@ -119,7 +121,8 @@ def grid(tier):
     for pd in (None, "Lorentzian", "Gaussian"):
         for td, m, nref in ((False, 1, 1), (False, 2, 2), (False, 4, 2), (False, 4, 4), (True, 1, 1), (True, 2, 2),
                             (True, 4, 1)):
-            yield dict(common, kind="forms", which="redfield", spec=spec, td=td, m=m, nref=nref, pd=pd)
+            for order in ((None, 2, 6) if pd is None else (None,)):
+                yield dict(common, kind="forms", which="redfield", spec=spec, td=td, m=m, nref=nref, pd=pd, order=order)
         H = [[0.0, 0.0, 0.0, 0.0], [0.0, 0.31, 0.04, 0.0], [0.0, 0.04, 0.33, -0.05], [0.0, 0.0, -0.05, 0.36]]
         ops = [{"proj": [1, 2]}, {"dense": [[0.0, 0.5, 0.0, 0.0], [0.5, 0.0, 1.0, 0.0], [0.0, 1.0, -0.5, 0.5],
                                             [0.0, 0.0, 0.5, 1.0]]}]
@@ -230,6 +233,8 @@ def _check_forms(case, ctx):
         else:
             p = ReducedDensityMatrixPropagator(tp, ham, T)
         rin = shared_rho if shared_rho is not None else ReducedDensityMatrix(data=rho0.copy())
+        if case.get("order"):
+            return numpy.array(p.propagate(rin, method="short-exp-%d" % case["order"], Nref=nref).data)
         return numpy.array(p.propagate(rin, Nref=nref).data)
     ok1, d1 = guarded(ctx, "propagate", lambda: prop(To, ho), tag + "/op")
     ok2, d2 = guarded(ctx, "propagate", lambda: prop(Tt, ht), tag + "/tensor")
